@@ -1,8 +1,22 @@
-OUTSIDE = ("buffers of arbitrary bytes longer than the stated L; names longer than the stated label shapes in output mode; "
-           "messages with more than one resource record; the 64 KiB end of the length range")
+OUTSIDE = ("buffers of ARBITRARY bytes longer than the stated L (reader primitives L<=8 quick/16 thorough; name decoding skip "
+           "mode L<=12 quick/20 thorough, with reference walk L<=8/11; name decoding returning text: all bytes arbitrary only "
+           "L<=3 quick/4 thorough, otherwise shape-concrete names with <=8 symbolic content bytes and decoded text <31 chars "
+           "(no growth of the 32-byte output block); ares_expand_name/ares_expand_string L<=8 quick/12 thorough); "
+           "resource records beyond the enumerated one-RR shapes (31 RR-level shapes x RDLENGTH in {exact, exact-1, exact+1, 0} "
+           "x bytes present; 9 message-level shapes truncated at every length in thorough); embedded length bytes, names "
+           "and TYPE/CLASS/parse flags are concrete per job (symbolic ones make the record's destructor dispatch symbolic "
+           "and do not close); header flag bytes and QTYPE concrete in message-level jobs; NAPTR/CAA(message level) string "
+           "bytes concrete; messages with more than one RR; allocation failure (C14); ares_buf_split (does not close); the "
+           "64 KiB end of the length range")
 ASSUMPTIONS = ["reader primitives: the source buffer is read-only (const view or dynamic buffer that is only read), "
                "offset <= data_len, tag unset or <= data_len (<= offset for the tag_fetch family, whose callers tag and "
-               "then only move forward)"]
+               "then only move forward)",
+               "name decoding returning text uses harness/C02/c02_alloc.c: realloc(NULL,32) hands out one pre-allocated "
+               "malloc(32) block, growth beyond it is a BOUND (inconclusive) - proved unreachable for every registered job",
+               "memchr/memcmp/memmem are explicit loops (harness/C02/c02_libc.c)",
+               "legacy API callers pass alen == size of the abuf object (or a non-positive alen, which must be rejected)",
+               "ares_dns_parse_rr is entered on a freshly created empty ares_dns_record_t (as ares_dns_parse_buf does for "
+               "the first RR)"]
 
 LIB = ["src/lib/ares_library_init.c", "src/lib/util/ares_math.c", "src/lib/str/ares_str.c", "src/lib/dsa/ares_array.c"]
 SUP = ["vp_rt.c", "valloc.c", "memloops.c", "c02_libc.c"]
@@ -13,14 +27,19 @@ BUF_OPS = [(0, "fetch_be16"), (1, "fetch_be32"), (2, "fetch_bytes"), (3, "fetch_
            (13, "tag_ops"), (14, "tag_fetch_bytes"), (15, "tag_fetch_string"), (16, "tag_fetch_strdup"),
            (17, "tag_fetch_constbuf"), (18, "peek_len_begins"), (19, "set_position"), (20, "parse_dns_binstr"),
            (21, "parse_dns_str")]
+# OP 22 (ares_buf_split / split_str, harness code kept in buf_prim.c) is NOT registered: no verdict in 240 s even at
+# L=1 (every section is a conditionally allocated ares_buf in a growing ares_array); it serves configuration parsing
+# (C15), not DNS message decoding.
 
 
 def buf_jobs(tier):
     J = []
-    Ls = (0, 1, 2, 3, 4, 6, 8) if tier == "quick" else tuple(range(0, 17))
+    Ls = (0, 1, 2, 4, 6, 8) if tier == "quick" else tuple(range(0, 17))
     for L in Ls:
         sizes = sorted(set(list(range(1, L + 4)) + [32, 48]))
         for op, opname in BUF_OPS:
+            if opname in ("consume_until_charset", "consume_charset") and L > (6 if tier == "quick" else 10):
+                continue  # set-membership scans: 50 s at L=8 (charset of up to 3 symbolic bytes), super-linear beyond
             J.append(dict(name="buf_%s_L%d" % (opname, L), harness="buf_prim.c",
                           defines=["-DL=%d" % L, "-DOP=%d" % op, "-DVP_SIZES=%s" % ",".join(map(str, sizes))],
                           real=LIB, support=SUP, unwind=L + 8, leak=True,
@@ -68,6 +87,7 @@ NAME_SHAPES = [
     ("bad_forward", 0, [0xC0, 2, 1, "A", 0], 0, "quick"),
     ("bad_forward_via_earlier", 2, [0xC0, 4, 0xC0, 0, 1, "A", 0], 0, "quick"),
     ("bad_two_cycle", 2, [0xC0, 2, 0xC0, 0], 0, "quick"),
+    ("bad_forward_after_back", 3, [0xC0, 2, 0, 0xC0, 0], 0, "quick"),
     ("bad_three_cycle", 4, [0xC0, 4, 0xC0, 0, 0xC0, 2], 0, "quick"),
     ("bad_past_end", 0, [0xC0, 9, 0], 0, "quick"),
     ("bad_trunc_label", 0, [3, "A", "A"], 0, "quick"),
@@ -136,7 +156,7 @@ def name_jobs(tier):
                       bound="ares_dns_name_parse(name=NULL) on an exact-size %d-byte object, ALL bytes arbitrary, any start "
                             "offset 0..%d, both is_hostname values; main loop bound %d unwindings; verdict and end cursor compared with a "
                             "reference RFC 1035 walk (strictly backward pointers)" % (L, L, name_loop_bound(L))))
-    for L in (range(9, 13) if tier == "quick" else range(9, 21)):
+    for L in (range(9, 13) if tier == "quick" else range(9, 19)):
         J.append(dict(name="name_skip_L%d" % L, harness="name_parse.c",
                       defines=["-DL=%d" % L, "-DMODE=0", "-DREF=0", "-DVP_SIZES=%d,48" % L],
                       real=NAME_LIB, support=SUP, unwind=L + 4, unwindset=["ares_dns_name_parse.0:%d" % name_loop_bound(L)],
@@ -280,6 +300,7 @@ RR_SHAPES = [
 
 
 RR_MUST_ACCEPT = set(n for n, t, c, s_, k in RR_SHAPES if n not in ("ANY", "A_badclass", "A_classany", "NAPTR_np"))
+RR_VALUE_DEPENDENT = set(["HINFO", "CAA", "URI"])  # printable-validated symbolic strings: may be rejected
 # bytes that follow the well-formed RDATA when more bytes are present than the shape has (default: arbitrary);
 # TXT reads the first of them as a length byte when RDLENGTH says so: keep it concrete (sizes stay concrete)
 RR_TRAIL = {"TXT1": [[1, A], [0, A]], "TXT2": [[1, A], [0, A]], "TXT3": [[2, A], [0, A]]}
@@ -292,11 +313,18 @@ def rr_jobs(tier):
         variants = [(E, E), (E, E + 2), (E + 1, E), (E + 1, E + 2), (0, E), (0, 0)]
         if E > 0:
             variants += [(E - 1, E), (E - 1, E - 1)]
+        if tier == "quick":
+            variants = [(E, E), (E + 1, E + 2), (0, E)] + ([(E - 1, E)] if E > 0 else [])
+            rawv = [(E, E), (0, E)] if nm in ("A", "NS", "SRV", "OPT1", "UNK99") else []
+            if nm in ("A", "UNK99", "TXT1"):
+                variants.append((E + 1, E))
+        else:
+            rawv = [(E, E), (0, E), (E + 1, E), (E + 1, E + 2)]
         runs = []
         for rdlen, nb in sorted(set(variants)):
             for ti, trail in enumerate(RR_TRAIL.get(nm, [[A, A]]) if nb > E else [[A, A]]):
                 runs.append((rdlen, nb, 0, trail, "" if ti == 0 else "_t%d" % ti))
-        runs += [(rdlen, nb, 0x3F, [A, A], "") for rdlen, nb in sorted(set([(E, E), (0, E), (E + 1, E), (E + 1, E + 2)]))]
+        runs += [(rdlen, nb, 0x3F, [A, A], "") for rdlen, nb in sorted(set(rawv))]
         for rdlen, nb, flags, trail, tsuf in runs:
             cells = [(1, t) if isinstance(t, int) else (0, 0) for t in (toks + trail)][:nb]
             d = ["-DRTYPE=%d" % rtype, "-DSECT=%d" % sect, "-DRDLEN=%d" % rdlen, "-DNB=%d" % nb, "-DFLAGS=%d" % flags,
@@ -305,6 +333,10 @@ def rr_jobs(tier):
             wit = ["end"]
             if (rdlen, nb) == (E, E) and flags == 0 and nm in RR_MUST_ACCEPT:
                 wit.append("ok")
+                if nm not in RR_VALUE_DEPENDENT:
+                    d.append("-DEXPECT_OK")
+            if (rdlen, nb) == (E, E) and flags != 0:
+                d.append("-DEXPECT_OK")
             J.append(dict(name="rr_%s%s_rdlen%d_nb%d%s" % (nm, "_raw" if flags else "", rdlen, nb, tsuf), harness="rr_parse.c",
                           defines=d, real=RR_LIB, support=SUP, unwind=max(26, nb + 4), leak=True, witnesses=wit,
                           kf_group="rr_parse",
@@ -325,7 +357,9 @@ MSG_SHAPES = [
     ("TXT2", 16, 1, 1, [1, A, 2, A, A]),
     ("OPT1", 41, None, 3, [A, A, 0, 2, A, A]),
     ("SVCB1", 64, 1, 1, [A, A] + NAME_B + [A, A, 0, 2, A, A]),
-    ("CAA", 257, 1, 1, [A, 2, A, A, A, A, A]),
+    # tag concrete: a printable-validated symbolic string makes the status symbolic and the record's destructor chain
+    # (run by ares_dns_parse_buf on failure) then case-splits without end (measured: no verdict in 240 s)
+    ("CAA", 257, 1, 1, [A, 2, ord("i"), ord("s"), A, A, A]),
     ("UNK99", 99, 1, 3, [A] * 3),
 ]
 
@@ -336,9 +370,9 @@ def msg_jobs(tier):
         E = len(toks)
         F = 31 + E
         if tier == "quick":
-            mls = sorted(set([0, 1, 11, 12, 14, 18, 19, 20, 21, 25, 29, 30, 31, F - 1, F]))
+            mls = sorted(set([0, 11, 12, 18, 19, 21, 30, 31, F - 1, F]))
             if nm not in ("A", "MX", "OPT1", "UNK99"):
-                mls = [12, 19, 30, F - 1, F]
+                mls = [19, F - 1, F]
         else:
             mls = list(range(0, F + 1))
         runs = [(ml, E, 0) for ml in mls] + [(F, E, 0x3F), (F, E + 1, 0), (F - 1, E, 0x3F)]
@@ -349,12 +383,15 @@ def msg_jobs(tier):
             d = ["-DRTYPE=%d" % rtype, "-DSECT=%d" % sect, "-DRDLEN=%d" % rdlen, "-DNB=%d" % E, "-DFLAGS=%d" % flags,
                  "-DML=%d" % ml, "-DRD=" + ",".join("{%d,%d}" % c for c in cells)]
             d += ["-DRCLASS_ANY"] if rclass is None else ["-DRCLASS=%d" % rclass]
-            wit = ["end", "err"]
-            if ml == F and rdlen == E and flags == 0:
-                wit = ["end", "ok", "err"]
+            wit = ["end"]
+            if ml < 31 + rdlen or rdlen > E:
+                wit.append("err")
+            elif ml == F and rdlen == E:
+                wit.append("ok")
+                d.append("-DEXPECT_OK")
             J.append(dict(name="msg_%s%s_rdlen%d_ml%d" % (nm, "_raw" if flags else "", rdlen, ml), harness="msg_parse.c",
                           defines=d, real=RR_LIB + ["src/lib/record/ares_dns_parse.c"], support=SUP,
-                          unwind=max(26, E + 4), leak=True, witnesses=wit, kf_group="rr_parse",
+                          unwind=max(26, F + 2), leak=True, witnesses=wit, kf_group="rr_parse",
                           bound="ares_dns_parse on the first %d of %d bytes of [id,flags symbolic | qd=1, one RR in section %d | "
                                 "01 'a' 00 qtype symbolic IN | C0 0C type %d class %s ttl symbolic RDLENGTH %d | %s], parse "
                                 "flags %s" % (ml, F, sect, rtype, "symbolic" if rclass is None else rclass, rdlen,
@@ -369,4 +406,6 @@ def jobs(tier, seed):
     J += legacy_jobs(tier)
     J += rr_jobs(tier)
     J += msg_jobs(tier)
+    for j in J:
+        j.setdefault("mem_gb", 6)
     return J
